@@ -314,6 +314,10 @@ type applyOpts struct {
 	WrapPool  func(lake.Pool, *tlc.Container) lake.Pool // e.g. safekeeper / recording pool
 	WrapBowl  func(bowl.Bowl) bowl.Bowl
 	BeforeCommit func()
+	// Interrupt > 0: the save consumer stops the application at its first Interrupt checkpoints; each time the SAME
+	// patcher is resumed from a gob round trip of that checkpoint with a new pool and a new bowl
+	Interrupt int
+	Stops     *int
 }
 
 type applyResult struct {
@@ -332,33 +336,42 @@ func realApplyPatch(patch []byte, o applyOpts) *applyResult {
 		return res
 	}
 	res.P = p
-	var targetPool lake.Pool = fspool.New(p.GetTargetContainer(), o.OldDir)
-	if o.WrapPool != nil {
-		targetPool = o.WrapPool(targetPool, p.GetTargetContainer())
+	mkPool := func() lake.Pool {
+		var tp lake.Pool = fspool.New(p.GetTargetContainer(), o.OldDir)
+		if o.WrapPool != nil {
+			tp = o.WrapPool(tp, p.GetTargetContainer())
+		}
+		return tp
 	}
-	var b bowl.Bowl
-	if o.Bowl == "overlay" {
-		b, err = bowl.NewOverlayBowl(bowl.OverlayBowlParams{
-			TargetContainer: p.GetTargetContainer(),
-			SourceContainer: p.GetSourceContainer(),
-			OutputFolder:    o.OldDir,
-			StageFolder:     o.StageDir,
-			Consumer:        nullConsumer(),
-		})
-	} else {
-		b, err = bowl.NewFreshBowl(bowl.FreshBowlParams{
-			TargetContainer: p.GetTargetContainer(),
-			SourceContainer: p.GetSourceContainer(),
-			TargetPool:      targetPool,
-			OutputFolder:    o.OutDir,
-		})
+	mkBowl := func(targetPool lake.Pool) (bowl.Bowl, error) {
+		var b bowl.Bowl
+		var err error
+		if o.Bowl == "overlay" {
+			b, err = bowl.NewOverlayBowl(bowl.OverlayBowlParams{
+				TargetContainer: p.GetTargetContainer(),
+				SourceContainer: p.GetSourceContainer(),
+				OutputFolder:    o.OldDir,
+				StageFolder:     o.StageDir,
+				Consumer:        nullConsumer(),
+			})
+		} else {
+			b, err = bowl.NewFreshBowl(bowl.FreshBowlParams{
+				TargetContainer: p.GetTargetContainer(),
+				SourceContainer: p.GetSourceContainer(),
+				TargetPool:      targetPool,
+				OutputFolder:    o.OutDir,
+			})
+		}
+		if err == nil && o.WrapBowl != nil {
+			b = o.WrapBowl(b)
+		}
+		return b, err
 	}
+	targetPool := mkPool()
+	b, err := mkBowl(targetPool)
 	if err != nil {
 		res.Err = err
 		return res
-	}
-	if o.WrapBowl != nil {
-		b = o.WrapBowl(b)
 	}
 	if o.Consumer != nil {
 		p.SetSaveConsumer(o.Consumer)
@@ -366,14 +379,47 @@ func realApplyPatch(patch []byte, o applyOpts) *applyResult {
 	if o.Whitelist != nil {
 		p.SetSourceIndexWhitelist(o.Whitelist)
 	}
+	var stoppedAt []byte
+	stops := 0
+	if o.Interrupt > 0 {
+		p.SetSaveConsumer(&saveConsumer{should: func() bool { return true }, save: func(c *patcher.Checkpoint) (patcher.AfterSaveAction, error) {
+			if stops < o.Interrupt {
+				if gb, gerr := gobCheckpoint(c); gerr == nil {
+					stoppedAt = gb
+					stops++
+					return patcher.AfterSaveStop, nil
+				}
+			}
+			return patcher.AfterSaveContinue, nil
+		}})
+	}
 	err = p.Resume(o.From, targetPool, b)
+	for o.Interrupt > 0 && err != nil && causeIs(err, patcher.ErrStop) && stoppedAt != nil {
+		cp, gerr := ungobCheckpoint(stoppedAt)
+		if gerr != nil {
+			err = gerr
+			break
+		}
+		stoppedAt = nil
+		b.Close()
+		targetPool = mkPool()
+		if b, err = mkBowl(targetPool); err != nil {
+			break
+		}
+		err = p.Resume(cp, targetPool, b)
+	}
+	if o.Stops != nil {
+		*o.Stops = stops
+	}
 	res.Touched = p.GetTouchedFiles()
 	if err != nil {
 		if err == patcher.ErrStop || fmt.Sprint(err) == fmt.Sprint(patcher.ErrStop) || causeIs(err, patcher.ErrStop) {
 			res.Stopped = true
 		}
 		res.Err = err
-		b.Close()
+		if b != nil {
+			b.Close()
+		}
 		return res
 	}
 	if o.BeforeCommit != nil {
